@@ -63,6 +63,10 @@ def stmt? (ws : List String) : Option Stmt :=
   | ["E", j, n, e] => match j.toNat?, unhex n, unhex e with
     | some j, some n, some e => some (.ext j n e)
     | _, _, _ => none
+  | ["P", n] => if n == "-" then some (.pyjob none) else (unhex n).map fun s => Stmt.pyjob (some s)
+  | "Y" :: j :: rs => match j.toNat?, rs.mapM ref? with
+    | some j, some rs => some (.pycall j rs)
+    | _, _ => none
   | ["W", r, d] => match ref? r, unhex d with
     | some r, some d => some (.out r d)
     | _, _ => none
